@@ -927,10 +927,12 @@ impl Engine for C15 {
                 let nent = p.jar(j).classes.len() as u64 + 3;
                 // detection walks the main jar once, the mappings step walks every jar once more
                 let span = 4 * nent * if j == 0 { 2 } else { 1 } + 4;
-                let mut fail_at: Vec<u32> = if j == 0 || z.chance(40) { (0..z.below(3)).map(|_| z.below(span) as u32).collect() } else { vec![] };
-                fail_at.sort();
-                fail_at.dedup();
-                p.lazy.push(crate::simjar::LazyPlan { fail_at, sticky: z.chance(30), io: if z.chance(40) { IoPlan::gen_legal(&mut z) } else { IoPlan::plain() } });
+                let mut l = crate::simjar::LazyPlan::draw(&mut z, span, nent * if j == 0 { 2 } else { 1 });
+                if j != 0 && z.chance(60) {
+                    l.fail_at.clear();
+                    l.read_fault = None;
+                }
+                p.lazy.push(l);
             }
         }
         p
@@ -1251,9 +1253,9 @@ impl Engine for C15 {
             q.lazy.clear();
             c.push(q);
             for j in 0..p.lazy.len() {
-                for i in 0..p.lazy[j].fail_at.len() {
+                for l in p.lazy[j].smaller() {
                     let mut q = p.clone();
-                    q.lazy[j].fail_at.remove(i);
+                    q.lazy[j] = l;
                     c.push(q);
                 }
             }
@@ -1274,7 +1276,7 @@ impl Engine for C15 {
                 ops += 1 + c.methods.len() as u64 + c.fields.len() as u64;
             }
         }
-        (ops + !p.lazy.is_empty() as u64, p.io.iter().map(|io| io.faults.len()).sum::<usize>() as u64 + p.damage.len() as u64 + p.lazy.iter().map(|l| l.fail_at.len()).sum::<usize>() as u64)
+        (ops + !p.lazy.is_empty() as u64, p.io.iter().map(|io| io.faults.len()).sum::<usize>() as u64 + p.damage.len() as u64 + p.lazy.iter().map(|l| l.faults()).sum::<usize>() as u64)
     }
     fn rule(&self) -> String {
         "one run = one main jar + 0-2 library jars of template classes (type universe and 1-4 bridge families of 1-4 levels; classes, interfaces; super types in the main jar, only in a library, or nowhere; 27 bridge / near-miss templates; random class-file layout, stored or deflated, shuffled archive order, non-class entries) x calamus and named mapping sets naming or not naming bridge, delegate and the declarations above them x two insertion orders x one I/O schedule per jar (chunk ceiling, short %, EINTR %) x 0-2 faults (EOF, flipped jar byte, EIO at call / at offset, failing seek, flipped class-file bit aimed at structures the visitor skips or at the super type indices of the header); non-trivial = a short transfer, EINTR or fault fired; distinct by (workload shape digest, I/O event-log digest)".into()
